@@ -212,6 +212,7 @@ def alphabet(tier="quick", family="all"):
             ("add_groups", ("G2",)), ("remove_groups", ("G1",)),
             ("remove_genes", ("g1",), False), ("remove_genes", ("g1",), True),
             ("remove_genes", ("g3",), True), ("remove_genes", ("g2", "g3"), False),
+            ("remove_genes", ("g2",), True), ("remove_genes", ("g2", "g3"), True),
             ("rename_genes", (("g1", "g9"),)), ("rename_genes", (("g1", "g2"),)),
             ("merge", "left", None), ("merge", "right", None), ("merge", "sum", "o_"),
             ("repair",)]
